@@ -1,19 +1,22 @@
 // C14: read-only, immutable and immutable-tags modes hold for every history.
 //
 // Three monitors over generated histories (and one concurrent phase under the race detector):
-//   A. ReadOnly(rec(mem)): no mutating backend method is ever invoked, mutating calls fail
-//      as unsupported, reads equal direct reads, the backend's observable state never changes.
-//   B. Immutable(mem): a monitor remembers every (repo, tag) -> (digest, bytes) and every
-//      present blob/manifest it has observed and re-checks all of them after every call.
-//   C. ocimem with ImmutableTags: the same tag monitor on the registry itself, plus the
-//      closure of what a tag referenced when it was bound must stay retrievable.
+//
+//	A. ReadOnly(rec(mem)): no mutating backend method is ever invoked, mutating calls fail
+//	   as unsupported, reads equal direct reads, the backend's observable state never changes.
+//	B. Immutable(mem): a monitor remembers every (repo, tag) -> (digest, bytes) and every
+//	   present blob/manifest it has observed and re-checks all of them after every call.
+//	C. ocimem with ImmutableTags: the same tag monitor on the registry itself, plus the
+//	   closure of what a tag referenced when it was bound must stay retrievable.
 package main
 
 import (
+	"bytes"
 	"context"
 	"errors"
 	"fmt"
 	"math/rand/v2"
+	"runtime"
 	"sort"
 	"strings"
 	"sync"
@@ -108,13 +111,13 @@ type obsTag struct {
 }
 
 type monitor struct {
-	run      *evid.Run
-	what     string // "immutable-wrapper" | "immutable-tags"
-	env      *model.Env
-	tags     map[string]obsTag   // repo\x00tag -> first observation
-	present  map[string][]byte   // wrapper only: "b\x00repo\x00digest" / "m\x00…" -> bytes seen
-	protect  map[string][]byte   // immutable-tags: things a tag referenced when bound
-	hist     []string
+	run     *evid.Run
+	what    string // "immutable-wrapper" | "immutable-tags"
+	env     *model.Env
+	tags    map[string]obsTag // repo\x00tag -> first observation
+	present map[string][]byte // wrapper only: "b\x00repo\x00digest" / "m\x00…" -> bytes seen
+	protect map[string][]byte // immutable-tags: things a tag referenced when bound
+	hist    []string
 }
 
 func key(parts ...string) string { return strings.Join(parts, "\x00") }
@@ -171,7 +174,9 @@ func (mo *monitor) protectClosure(repo, digest string) {
 // recheck re-observes everything remembered.
 func (mo *monitor) recheck(after *model.Op) {
 	run := mo.run
-	w := func() map[string]any { return map[string]any{"mode": mo.what, "after": after, "history_tail": tail(mo.hist)} }
+	w := func() map[string]any {
+		return map[string]any{"mode": mo.what, "after": after, "history_tail": tail(mo.hist)}
+	}
 	for k, o := range mo.tags {
 		p := strings.Split(k, "\x00")
 		out := mo.env.Exec(&model.Op{Kind: "ResolveTag", Repo: p[0], Tag: p[1]})
@@ -313,6 +318,93 @@ func immutableHistory(run *evid.Run, h int, wrapper bool) {
 	if h < 1 {
 		run.Sample(what+"-history", mo.hist)
 	}
+}
+
+// deleteVersusTagPush: two goroutines released together, one deleting a blob (or manifest) nothing
+// refers to yet, the other pushing a manifest under a new tag that refers to it. Whichever order the
+// registry serialises them in, afterwards either the push was refused, or the delete was, or both
+// went through in the order delete-then-push - which cannot be, since the push checks its references.
+// So: if the tagged push succeeded, what it references is still retrievable.
+func deleteVersusTagPush(run *evid.Run, iters int) {
+	reg := ocimem.NewWithConfig(&ocimem.Config{ImmutableTags: true})
+	ctx := context.Background()
+	for it := 0; it < iters; it++ {
+		repo := fmt.Sprintf("dv/r%d", it)
+		layer := []byte(fmt.Sprintf("layer %d", it))
+		cfg := []byte("{}")
+		for _, b := range [][]byte{layer, cfg} {
+			reg.PushBlob(ctx, repo, ociregistry.Descriptor{MediaType: "application/octet-stream", Digest: ociregistry.Digest(model.Digest(b)), Size: int64(len(b))}, bytes.NewReader(b))
+		}
+		img := []byte(fmt.Sprintf(`{"schemaVersion":2,"mediaType":%q,"config":{"mediaType":"application/octet-stream","digest":%q,"size":2},"layers":[{"mediaType":"application/octet-stream","digest":%q,"size":%d}]}`, model.MTImage, model.Digest(cfg), model.Digest(layer), len(layer)))
+		viaIndex := it%2 == 1
+		var victim string // what the deleter goes for
+		var tagged []byte
+		taggedMT := model.MTImage
+		if viaIndex {
+			// the image is pushed untagged first; the tagged push is an index over it; the victim is the image
+			if _, err := reg.PushManifest(ctx, repo, "", img, model.MTImage); err != nil {
+				continue
+			}
+			victim = model.Digest(img)
+			tagged = []byte(fmt.Sprintf(`{"schemaVersion":2,"mediaType":%q,"manifests":[{"mediaType":%q,"digest":%q,"size":%d}]}`, model.MTIndex, model.MTImage, victim, len(img)))
+			taggedMT = model.MTIndex
+		} else {
+			victim = model.Digest(layer)
+			tagged = img
+		}
+		var start sync.WaitGroup
+		start.Add(1)
+		var wg sync.WaitGroup
+		var delErr, pushErr error
+		wg.Add(2)
+		go func() {
+			defer wg.Done()
+			start.Wait()
+			if viaIndex {
+				delErr = reg.DeleteManifest(ctx, repo, ociregistry.Digest(victim))
+			} else {
+				delErr = reg.DeleteBlob(ctx, repo, ociregistry.Digest(victim))
+			}
+		}()
+		go func() {
+			defer wg.Done()
+			start.Wait()
+			for k := 0; k < it%7; k++ {
+				runtime.Gosched()
+			}
+			_, pushErr = reg.PushManifest(ctx, repo, "latest", tagged, taggedMT)
+		}()
+		start.Done()
+		wg.Wait()
+		run.Count("delete_vs_tag_push_rounds", 1)
+		switch {
+		case pushErr == nil && delErr == nil:
+			run.Count("delete_vs_tag_push/both_succeeded", 1)
+		case pushErr == nil:
+			run.Count("delete_vs_tag_push/delete_refused", 1)
+		default:
+			run.Count("delete_vs_tag_push/push_refused", 1)
+		}
+		if pushErr != nil {
+			continue
+		}
+		var gerr error
+		if viaIndex {
+			_, gerr = reg.ResolveManifest(ctx, repo, ociregistry.Digest(victim))
+		} else {
+			_, gerr = reg.ResolveBlob(ctx, repo, ociregistry.Digest(victim))
+		}
+		if gerr != nil {
+			what := "blob"
+			if viaIndex {
+				what = "manifest"
+			}
+			run.Violation("immutable-tags/concurrent/delete-versus-tag-push/"+what, fmt.Sprintf("a push under the new tag 'latest' referring to %s %s succeeded, a concurrent delete of that %s succeeded too (error %v), and now the tag refers to something that is gone (%v)", what, victim, what, delErr, gerr), map[string]any{"iteration": it, "via_index": viaIndex})
+			return
+		}
+	}
+	run.Eval(1)
+	run.Distinct("concurrent/delete-versus-tag-push")
 }
 
 // pressure builds operations aimed at the protections: overwrite an observed tag with
@@ -488,6 +580,8 @@ func main() {
 	for r := 0; r < rounds; r++ {
 		concurrentRound(run, r)
 	}
+	deleteVersusTagPush(run, run.N(4000, 100000))
+	run.FloorCounter("delete_vs_tag_push_rounds", 1000)
 	run.FloorCounter("readonly_mutations_refused", 100)
 	run.FloorCounter("immutable-wrapper/tags_observed", 50)
 	run.FloorCounter("immutable-tags/tags_observed", 50)
